@@ -189,6 +189,37 @@ def run(ctx: Ctx) -> None:
             rep.info("C19.R5", sync.qname, "record location is not expressed in terms of the path (not judged)", puts[0].where())
     rep.floor("C19.R5", n5, 1)
 
+    # ---- R8: under the full commit a record is never (re)written without the copy ---------------------------------------
+    rep.rule("C19.R8", "in sync_paths every path to the write of a redirect record passes a data copy (or the outcome 'commit type is not full'): no "
+                       "shortcut may leave the previous copy in place when the key of the path has changed")
+    from ..cfg import cfg_of
+    from .common import dominated, done_nodes
+    scfg = cfg_of(sync)
+    copy_nodes = [e.root_node for e in effs if e.kind in ("CP", "WRITE_INPLACE") and any(mentions_attr(e.term, a) for a in data_attrs) and e.root_func is sync]
+    put_nodes = [e.root_node for e in effs if e.kind == "PUT" and any(mentions_attr(e.term, a) for a in data_attrs) and e.root_func is sync]
+    doms = [d for c in copy_nodes for d in done_nodes(scfg, c)]
+    for b in scfg.nodes:
+        if b.kind == "branch" and b.ast is not None and "_commit_type" in ast.unparse(b.ast) and full:
+            t = cond_under(ev, sync, b.ast, EnumMember(enum, full[0]))
+            if t is not None and ((b.label == "T") != t):
+                doms.append(b)  # an outcome that excludes the full commit
+    n8 = 0
+    seen8 = set()
+    for pn in put_nodes:
+        if id(pn) in seen8:
+            continue
+        seen8.add(id(pn))
+        n8 += 1
+        desc = "the redirect record is written only after the data was copied (full commit)"
+        w = dominated(ctx, sync, pn, doms) if doms else ["no copy effect found in sync_paths"]
+        if w is None:
+            rep.ok("C19.R8", sync.qname, desc, sync.loc(pn))
+        else:
+            rep.bad("C19.R8", sync.qname, desc, sync.loc(pn), ["path to the record write that performs no copy although the commit type is 'full':"] + w + [
+                "re-keeping a path with a new result: the record and load follow the new blob, the file under the data directory keeps the old content "
+                "('full' promises a byte-identical copy)"], "record-without-copy", what="under the full commit the data copy can be skipped while the record is rewritten")
+    rep.floor("C19.R8", n8, 1)
+
     # ---- R7: one copy location per path ----------------------------------------------------------------------------
     from .storerules import uri_join_keeps_names
     rep.rule("C19.R7", "as C08.R7: the URI join removes separator syntax only, so the copies of '/.a/b' and '/a/b' do not overwrite each other")
@@ -325,6 +356,29 @@ def run(ctx: Ctx) -> None:
         else:
             rep.ok("C19.R6", reg.qname, desc, sites[0][0].loc(sites[0][1]))
     rep.floor("C19.R6", n6, 1)
+
+    # ---- R9: store_blob returns normally only when the commit marker was written ----------------------------------------
+    rep.rule("C19.R9", "DBFS store_blob: every normal return passes the completed write of the blob's metadata (a failed write propagates): a record is "
+                       "never published for a key that has no metadata")
+    from ..cfg import cfg_of as _cfg_of
+    from .common import done_nodes as _done_nodes, witness_path as _wp
+    sbf = cls.methods["store_blob"]
+    sb_effs = m.effects_of("store_blob")
+    int_attrs_ = [a for a, d in m.attr_defs.items() if d[:2] == ("ctor", 0)]
+    meta_puts = [e for e in sb_effs if e.kind == "PUT" and any(mentions_attr(e.term, a) for a in int_attrs_)]
+    bcfg = _cfg_of(sbf)
+    if not meta_puts:
+        rep.unknown("C19.R9", sbf.qname, "metadata write of store_blob not found", sbf.loc())
+    else:
+        avoid = [d for e in meta_puts if e.root_func is sbf for d in _done_nodes(bcfg, e.root_node)]
+        pth = bcfg.find_path([bcfg.entry], [bcfg.exit], avoid=avoid)
+        desc = "store_blob cannot return normally without having written the metadata"
+        if pth is None:
+            rep.ok("C19.R9", sbf.qname, desc, meta_puts[-1].where())
+        else:
+            rep.bad("C19.R9", sbf.qname, desc, sbf.loc(), ["normal path through store_blob that skips / survives a failed metadata write:"] + _wp(bcfg, sbf, pth)[-12:] + [
+                "the metadata is the commit marker and names the codec (has_blob / fetch_blob depend on it): with a links-only commit the redirect record is then "
+                "published for a key without metadata and dds.load silently returns None"], "meta-failure-swallowed", what="a failed metadata write is swallowed by store_blob")
 
     check_reader(ctx, cls, "C19.R4")
     # ---- R4 marker ---------------------------------------------------------------------------------
